@@ -87,7 +87,7 @@ func runWorker(sp *spec, bin string, j workerJob) (*result, error) {
 		scen[i] = strconv.Itoa(s)
 	}
 	env := append(goEnv(),
-		"VERIF_PROP="+sp.propID(), "VERIF_TIER="+j.Tier, "VERIF_MODE="+j.Mode, "VERIF_SCEN="+strings.Join(scen, ","),
+		"VERIF_PROP="+sp.harnessKey(), "VERIF_TIER="+j.Tier, "VERIF_MODE="+j.Mode, "VERIF_SCEN="+strings.Join(scen, ","),
 		"VERIF_OUT="+j.Out, "VERIF_SCRATCH="+j.Scratch, "VERIF_REPLAY="+j.Replay, "VERIF_PARAMS="+j.Params,
 		"GOMAXPROCS="+strconv.Itoa(sp.gomaxprocs()),
 	)
